@@ -4,5 +4,6 @@ CONSTANTS
   WB = 7
   Mutant = "trunc"
   Wide = FALSE
+  Only = {"point", "point3d", "multiply", "invert"}
   LimbBits <- MCLimbBits
 INVARIANTS Sound DevOK Tight
